@@ -49,7 +49,8 @@ STRATA = {
     "enum_len4_roundrobin": (0, len(ALPHABET) ** 4),
     "canonical_runs": (len(WRAPPERS) * len(BEHAVIOURS) * 6, len(WRAPPERS) * len(BEHAVIOURS) * 40),
 }
-REQUIRED_ORACLES = ["lifecycle_automaton", "rejected_call_no_side_effect", "resources_released", "clean_up_once", "results_match_tool"]
+REQUIRED_ORACLES = ["lifecycle_automaton", "rejected_call_no_side_effect", "resources_released", "clean_up_once", "results_match_tool",
+                    "cwd_unchanged_by_call", "launched_in_exec_dir"]
 ANCHORS = [
     "biotite.application.application:Application.start",
     "biotite.application.application:Application.cancel",
@@ -256,6 +257,7 @@ class Case:
     def construct(self):
         ctx = self.ctx
         self.cwd0 = os.getcwd()
+        self.cwd_at_construct = self.cwd0
         binpath = os.path.join(FIX, self.wrapper)
         self.scratch_bin = None
         if self.beh == "missing_binary":
@@ -288,6 +290,27 @@ class Case:
         os.environ["VF_FAKE_MODE"] = self.tool_mode()
         os.environ["VF_FAKE_PAD"] = "alt" if self.rng.random() < 0.5 else ""
         self.alt = os.environ["VF_FAKE_PAD"] == "alt"
+        # output order of the 'reorder' tool: a random permutation (mostly not its own inverse)
+        n = len(self.inputs) if self.inputs is not None else 0
+        self.perm = [int(k) for k in self.rng.permutation(n)] if n else []
+        if n >= 3 and self.rng.random() < 0.7:
+            k = int(self.rng.integers(1, n))
+            self.perm = [(i + k) % n for i in range(n)]          # cyclic rotation
+        os.environ["VF_FAKE_PERM"] = ",".join(str(k) for k in self.perm)
+        self.fake_log = os.path.join(WORK, "fake-%d.log" % os.getpid())
+        try:
+            os.remove(self.fake_log)
+        except OSError:
+            pass
+        os.environ["VF_FAKE_LOG"] = self.fake_log
+        self.exec_dir = None
+        # the process may change its working directory between construction and start (a legal history)
+        if self.rng.random() < 0.5:
+            d = os.path.join(WORK, "cwd-%d" % int(self.rng.integers(3)))
+            os.makedirs(d, exist_ok=True)
+            os.chdir(d)
+            self.cwd0 = os.getcwd()
+            self.ctx.op("driver_chdir_between_construct_and_start")
 
     def call(self, op):
         ctx, app = self.ctx, self.app
@@ -308,7 +331,7 @@ class Case:
             "join_timeout": lambda: app.join(timeout=(0.15 if self.tool_mode() == "hang" else 30)),
             "cancel": app.cancel,
             "get_app_state": app.get_app_state,
-            "setter": lambda: app.add_additional_options([]),
+            "setter": self.setter,
             "get_command": app.get_command,
             "get_exit_code": app.get_exit_code,
             "get_stdout": app.get_stdout,
@@ -395,6 +418,35 @@ class Case:
         if real != self.state:
             ctx.fail("lifecycle_automaton", "after %s the wrapper is in state %s, automaton %s" % (op, real, self.state))
 
+    def setter(self):
+        """One of the CREATED-only setters; set_exec_dir is tracked so that the launch directory can be judged."""
+        if self.beh != "bad_exec_dir" and self.rng.random() < 0.5:
+            d = os.path.join(WORK, "exec-%d" % int(self.rng.integers(3)))
+            os.makedirs(d, exist_ok=True)
+            self.app.set_exec_dir(d)
+            if self.app._state.name == "CREATED":
+                self.exec_dir = d
+            self.ctx.op("set_exec_dir")
+        else:
+            self.app.add_additional_options([])
+
+    def check_launch_dir(self):
+        """The tool must have been started in the requested execution directory (default: cwd at construction)."""
+        if self.tool_mode() == "hang" or self.pid is None:
+            return
+        self.wait_child()
+        try:
+            lines = [l.split("\t") for l in open(self.fake_log) if l.strip()]
+        except OSError:
+            return
+        runs = [l for l in lines if len(l) >= 4 and "-version" not in l[3].split("\x1f")[:1]]
+        if not runs:
+            return
+        self.ctx.oracle("launched_in_exec_dir")
+        want = self.exec_dir or self.cwd_at_construct
+        if os.path.realpath(runs[-1][2]) != os.path.realpath(want):
+            self.ctx.fail("launched_in_exec_dir", "tool ran in %s, execution directory is %s" % (runs[-1][2], want))
+
     def check_results(self):
         ctx, app = self.ctx, self.app
         ctx.oracle("results_match_tool")
@@ -407,7 +459,7 @@ class Case:
         ali = app.get_alignment()
         order = [int(x) for x in app.get_alignment_order()]
         n = len(self.inputs)
-        exp_order = list(range(n))[::-1] if self.tool_mode() == "reorder" else list(range(n))
+        exp_order = list(self.perm) if self.tool_mode() == "reorder" else list(range(n))
         if order != exp_order:
             ctx.fail("results_match_tool", "alignment order %s, tool wrote %s" % (order, exp_order))
         if len(ali.sequences) != n or any(a is not b and not (a == b) for a, b in zip(ali.sequences, self.inputs)):
@@ -512,8 +564,7 @@ class Case:
                         f.close()
                     except Exception:
                         pass
-            if os.getcwd() != self.cwd0:
-                os.chdir(self.cwd0)
+            os.chdir(self.cwd_at_construct)
 
     def execute(self):
         ctx = self.ctx
@@ -526,9 +577,16 @@ class Case:
                 if self.state == "ENDED":
                     break
                 self.call(op)
+                ctx.oracle("cwd_unchanged_by_call")
+                if os.getcwd() != self.cwd0:
+                    bad = os.getcwd()
+                    os.chdir(self.cwd0)
+                    ctx.fail("cwd_unchanged_by_call", "%s left the working directory at %s (was %s)" % (op, bad, self.cwd0))
                 ctx.state((self.wrapper, self.beh, self.state, self.ended))
             if self.ended is not None:
                 self.check_resources()
+                if self.ended in ("joined", "join_failed", "cancelled"):
+                    self.check_launch_dir()
         finally:
             self.finish()
 
